@@ -149,7 +149,7 @@ func TestGovcBounded_aggregates_per_group_and_batch(t *testing.T) {
 					buf[g] = nil
 				}
 			}
-			deadline := time.Now().Add(2 * time.Second)
+			deadline := time.Now().Add(15 * time.Second)
 			for time.Now().Before(deadline) {
 				mu.Lock()
 				n := len(got)
